@@ -513,6 +513,35 @@ def _t_local_aliases(srcs):
                         alias_attrs(m)
 
 
+def _t_method_spellings(srcs):
+    """`M.copy()` -> `np.copy(M)` for matrix-named variables; `x.sum(axis=0)` -> `x.sum(0)`; set algebra on the node-set helpers as methods:
+    `pa(..) & ch(..)` -> `pa(..).intersection(ch(..))`, `|` -> union, `-` -> difference (left operand a helper call or set(...))"""
+    import ast
+    MATS = {"A", "G", "P", "W", "pdag", "ordered", "labelled", "M", "supergraph", "cpdag"}
+    SETS = {"pa", "ch", "neighbors", "adj", "na", "set"}
+    METH = {ast.BitAnd: "intersection", ast.BitOr: "union", ast.Sub: "difference"}
+
+    class R(ast.NodeTransformer):
+        def visit_Call(self, node):
+            self.generic_visit(node)
+            if isinstance(node.func, ast.Attribute) and node.func.attr == "copy" and not node.args and not node.keywords and isinstance(node.func.value, ast.Name) and node.func.value.id in MATS:
+                return ast.copy_location(ast.Call(func=ast.Attribute(value=ast.Name("np", ast.Load()), attr="copy", ctx=ast.Load()), args=[node.func.value], keywords=[]), node)
+            if isinstance(node.func, ast.Attribute) and node.func.attr == "sum" and not node.args and len(node.keywords) == 1 and node.keywords[0].arg == "axis" and \
+                    isinstance(node.keywords[0].value, ast.Constant):
+                return ast.copy_location(ast.Call(func=node.func, args=[node.keywords[0].value], keywords=[]), node)
+            return node
+
+        def visit_BinOp(self, node):
+            self.generic_visit(node)
+            l = node.left
+            if type(node.op) in METH and isinstance(l, ast.Call) and isinstance(l.func, ast.Name) and l.func.id in SETS:
+                return ast.copy_location(ast.Call(func=ast.Attribute(value=l, attr=METH[type(node.op)], ctx=ast.Load()), args=[node.right], keywords=[]), node)
+            return node
+    for pth, tree in srcs.items():
+        if "import numpy as np" in ast.unparse(tree)[:6000]:
+            R().visit(tree)
+
+
 def _t_np_operators(srcs):
     """operators spelled as numpy functions where that is the same for every operand the code can see: a @ b -> np.matmul(a, b), np.eye(n) -> np.identity(n)"""
     import ast
@@ -796,7 +825,7 @@ def _t_accept_lists(srcs):
                         n.body[k:k] = ast.parse("if not isinstance(%s, np.ndarray):\n    %s = np.array(%s)\n" % (a.arg, a.arg, a.arg)).body
 
 
-TREE_TRANSFORMS = {"@coerce_params": _t_coerce_params, "@accept_lists": _t_accept_lists, "@early_exit": _t_early_exit, "@numpy_alias": _t_numpy_alias, "@kwargs_calls": _t_kwargs_calls, "@strip_docs_annotate": _t_strip_docs_annotate, "@logging": _t_logging, "@traced": _t_traced, "@kwonly": _t_kwonly, "@extra_param": _t_extra_param, "@try_reraise": _t_try_reraise, "@np_functions": _t_np_functions, "@small_idioms": _t_small_idioms, "@flip_comparisons": _t_flip_comparisons, "@else_after_exit": _t_else_after_exit, "@comp_to_loop": _t_comp_to_loop, "@logic_spellings": _t_logic_spellings, "@local_aliases": _t_local_aliases, "@np_operators": _t_np_operators, "@private_module": _t_private_module, "@swap_branches": _t_swap_branches, "@name_conditions": _t_name_conditions, "@ternary_to_if": _t_ternary_to_if,
+TREE_TRANSFORMS = {"@coerce_params": _t_coerce_params, "@accept_lists": _t_accept_lists, "@early_exit": _t_early_exit, "@numpy_alias": _t_numpy_alias, "@kwargs_calls": _t_kwargs_calls, "@strip_docs_annotate": _t_strip_docs_annotate, "@logging": _t_logging, "@traced": _t_traced, "@kwonly": _t_kwonly, "@extra_param": _t_extra_param, "@try_reraise": _t_try_reraise, "@np_functions": _t_np_functions, "@small_idioms": _t_small_idioms, "@flip_comparisons": _t_flip_comparisons, "@else_after_exit": _t_else_after_exit, "@comp_to_loop": _t_comp_to_loop, "@logic_spellings": _t_logic_spellings, "@local_aliases": _t_local_aliases, "@method_spellings": _t_method_spellings, "@np_operators": _t_np_operators, "@private_module": _t_private_module, "@swap_branches": _t_swap_branches, "@name_conditions": _t_name_conditions, "@ternary_to_if": _t_ternary_to_if,
                    "@shim": _t_shim}
 
 
